@@ -5,7 +5,6 @@
 //! a value, or requires any trait bound on `K`, `V` or `S`.
 
 use crate::LruCache;
-use crate::entry::Entry;
 
 /// One node of the recency list as seen by the walker.
 #[derive(Clone, Debug, Eq, PartialEq)]
